@@ -506,7 +506,9 @@ func (p *c20Priv) defineKinds() {
 	}})
 	// ---- owner-only: on-demand LP
 	add(&c20PK{key: "eibc.MsgDeleteOnDemandLP", obj: oLP, class: "owner", after: "lp", rare: true, build: func(p *c20Priv, s sdk.AccAddress, n, _ int) (sdk.Msg, error) {
-		return &eibctypes.MsgDeleteOnDemandLP{Signer: s.String(), Ids: []uint64{p.lpID}}, nil
+		// batch shapes: alone, after an id that does not exist (already deleted / never created), before one
+		ids := [][]uint64{{p.lpID}, {p.lpID + 1000 + uint64(n), p.lpID}, {p.lpID, p.lpID + 1000 + uint64(n)}}[n%3]
+		return &eibctypes.MsgDeleteOnDemandLP{Signer: s.String(), Ids: ids}, nil
 	}})
 }
 
